@@ -72,12 +72,17 @@ var emptySchema = arrow.NewSchema(nil, nil)
 // TickStream builds a producer's input stream of n ticks; cancelAt >= 0 puts
 // a cancel batch at that position (ticks after it are still sent).
 func TickStream(n, cancelAt int, tickMeta [][][2]string) []byte {
+	return TickStreamV(n, cancelAt, tickMeta, "true")
+}
+
+// TickStreamV is TickStream with the cancel key's value spelt cancelVal.
+func TickStreamV(n, cancelAt int, tickMeta [][][2]string, cancelVal string) []byte {
 	var bs []arrow.RecordBatch
 	for i := 0; i < n; i++ {
 		b := arrow.RecordBatch(array.NewRecordBatch(emptySchema, nil, 0))
 		var keys, vals []string
 		if i == cancelAt {
-			keys, vals = append(keys, KCancel), append(vals, "true")
+			keys, vals = append(keys, KCancel), append(vals, cancelVal)
 		}
 		if i < len(tickMeta) {
 			for _, kv := range tickMeta[i] {
